@@ -591,3 +591,203 @@ pub use crate::rollback::verif_delta::{LogView, Priors, RollbackSim};
 pub fn overlay_rollback_delta(o: &Overlay) -> Option<Priors> {
     o.rollback_delta().map(crate::rollback::verif_delta::priors_of)
 }
+
+// H12 — Overflow values (`beatree/ops/overflow.rs`): the page arithmetic, the cell codec, the inline / overflow decision,
+// and `chunk` / `read_blocking` / `AsyncReader` / `delete` on a scratch leaf-store file.
+
+pub mod overflow {
+    use crate::beatree::{
+        allocator::{Store, StoreReader, SyncAllocator, SyncFinisher},
+        ops::overflow as ovf,
+        PageNumber, ValueChange,
+    };
+    use crate::io::{self, IoCommand, IoHandle, IoKind, IoPool, PagePool, PAGE_SIZE};
+    use std::{collections::HashMap, fs::File, os::fd::AsRawFd, path::Path, sync::Arc};
+
+    pub use crate::beatree::leaf::node::{
+        body_size, LEAF_NODE_BODY_SIZE, MAX_LEAF_VALUE_SIZE, MAX_OVERFLOW_CELL_NODE_POINTERS,
+        MAX_OVERFLOW_VALUE_SIZE,
+    };
+    pub use ovf::verif::{needed_pages, total_needed_pages, BODY_SIZE, HEADER_SIZE, MAX_PNS};
+
+    /// `overflow::encode_cell`
+    pub fn encode_cell(value_size: usize, value_hash: [u8; 32], pages: &[u32]) -> Vec<u8> {
+        let pages: Vec<PageNumber> = pages.iter().map(|pn| PageNumber(*pn)).collect();
+        ovf::encode_cell(value_size, value_hash, &pages)
+    }
+
+    /// `overflow::decode_cell` with the page-number iterator collected.
+    pub fn decode_cell(raw: &[u8]) -> (usize, [u8; 32], Vec<u32>) {
+        let (size, hash, pages) = ovf::decode_cell(raw);
+        (size, hash, pages.map(|pn| pn.0).collect())
+    }
+
+    /// Does `ValueChange::insert` (the decision every committed value goes through) choose the overflow variant
+    /// for a value of this length?
+    pub fn insert_is_overflow(len: usize) -> bool {
+        matches!(
+            ValueChange::insert::<crate::hasher::Blake3Hasher>(vec![0u8; len]),
+            ValueChange::InsertOverflow(..)
+        )
+    }
+
+    /// The shared page pool and I/O pool of the simulations.
+    pub struct Env {
+        page_pool: PagePool,
+        io_pool: IoPool,
+    }
+
+    impl Env {
+        pub fn new(io_workers: usize) -> Self {
+            let page_pool = PagePool::new();
+            let io_pool = io::start_io_pool(io_workers, page_pool.clone());
+            Env { page_pool, io_pool }
+        }
+    }
+
+    /// A leaf-store file with one sync in progress: every `chunk` allocates from the same `SyncAllocator`, as all
+    /// overflow values of one commit do in `leaf_stage::run`.
+    pub struct Sim {
+        file: Arc<File>,
+        reader: StoreReader,
+        page_pool: PagePool,
+        io_handle: IoHandle,
+        allocator: Option<SyncAllocator>,
+        _finisher: SyncFinisher,
+    }
+
+    impl Sim {
+        /// A fresh file of `file_pages` zero pages at `path`; the store's allocation frontier is `bump` and its free
+        /// list is the single portion stored at page `free_head` holding `free` (in the order they will be popped).
+        pub fn new(
+            env: &Env,
+            path: &Path,
+            file_pages: u32,
+            bump: u32,
+            free_head: u32,
+            free: &[u32],
+        ) -> std::io::Result<Self> {
+            let file = std::fs::OpenOptions::new()
+                .read(true)
+                .write(true)
+                .create(true)
+                .truncate(true)
+                .open(path)?;
+            file.set_len(file_pages as u64 * PAGE_SIZE as u64)?;
+            let file = Arc::new(file);
+            let portions = if free.is_empty() {
+                vec![]
+            } else {
+                vec![(free_head, free.iter().rev().cloned().collect())]
+            };
+            let store = Store::verif_with_free_list(file.clone(), PageNumber(bump), portions)?;
+            let (allocator, finisher) = store.start_sync();
+            Ok(Sim {
+                file,
+                reader: StoreReader::new(store, env.page_pool.clone()),
+                page_pool: env.page_pool.clone(),
+                io_handle: env.io_pool.make_handle(),
+                allocator: Some(allocator),
+                _finisher: finisher,
+            })
+        }
+
+        /// `overflow::chunk` with the sync's allocator; waits for the page writes it submitted. Returns the cell's
+        /// page numbers and the number of writes.
+        pub fn chunk(&self, value: &[u8]) -> std::io::Result<(Vec<u32>, usize)> {
+            let allocator = self.allocator.as_ref().expect("allocator is live");
+            let (cell, writes) = ovf::chunk(value, allocator, &self.page_pool, &self.io_handle)?;
+            for _ in 0..writes {
+                let complete = self.io_handle.recv().expect("I/O pool down");
+                complete.result?;
+            }
+            Ok((cell.into_iter().map(|pn| pn.0).collect(), writes))
+        }
+
+        /// `overflow::read_blocking`
+        pub fn read_blocking(&self, cell: &[u8]) -> Vec<u8> {
+            ovf::read_blocking(cell, &self.reader)
+        }
+
+        /// `overflow::delete`
+        pub fn delete(&self, cell: &[u8], freed: &mut Vec<u32>) {
+            let mut f: Vec<PageNumber> = freed.iter().map(|pn| PageNumber(*pn)).collect();
+            let res = std::panic::catch_unwind(std::panic::AssertUnwindSafe(|| {
+                ovf::delete(cell, &self.reader, &mut f)
+            }));
+            *freed = f.into_iter().map(|pn| pn.0).collect();
+            if let Err(e) = res {
+                std::panic::resume_unwind(e);
+            }
+        }
+
+        /// A new `AsyncReader` for the cell, with its own completion queue.
+        pub fn async_reader(&self, cell: &[u8]) -> AsyncSim {
+            AsyncSim {
+                reader: ovf::AsyncReader::new(cell, self.reader.clone()),
+                io_handle: self.io_handle.make_new_sibiling_handle(),
+                arrived: HashMap::new(),
+                next_user_data: 0,
+            }
+        }
+
+        pub fn read_page(&self, pn: u32) -> std::io::Result<Vec<u8>> {
+            io::read_page(&self.page_pool, &self.file, pn as u64).map(|p| p[..].to_vec())
+        }
+
+        pub fn write_page(&self, pn: u32, page: &[u8]) -> std::io::Result<()> {
+            use std::os::unix::fs::FileExt as _;
+            assert_eq!(page.len(), PAGE_SIZE);
+            self.file.write_all_at(page, pn as u64 * PAGE_SIZE as u64)
+        }
+
+        pub fn file_pages(&self) -> std::io::Result<u64> {
+            Ok(self.file.metadata()?.len() / PAGE_SIZE as u64)
+        }
+
+        pub fn store_fd(&self) -> i32 {
+            self.file.as_raw_fd()
+        }
+    }
+
+    /// The real `AsyncReader` with real page reads; the caller chooses when to submit and in which order the
+    /// completions are delivered.
+    pub struct AsyncSim {
+        reader: ovf::AsyncReader,
+        io_handle: IoHandle,
+        arrived: HashMap<u64, (std::io::Result<()>, IoCommand)>,
+        next_user_data: u64,
+    }
+
+    impl AsyncSim {
+        /// `AsyncReader::submit`: (index, page number requested, ticket for `complete`)
+        pub fn submit(&mut self) -> Option<(usize, u32, u64)> {
+            let user_data = self.next_user_data;
+            let index = self.reader.submit(&self.io_handle, user_data)?;
+            self.next_user_data += 1;
+            let pn = self.reader.verif_page_number(index).unwrap_or(u32::MAX);
+            Some((index, pn, user_data))
+        }
+
+        /// Waits for the read with this ticket and hands the page to `AsyncReader::complete(index, page)`.
+        /// `Err` if the read failed (then `complete` is not called).
+        pub fn complete(&mut self, index: usize, ticket: u64) -> std::io::Result<Option<Vec<u8>>> {
+            while !self.arrived.contains_key(&ticket) {
+                let c = self.io_handle.recv().expect("I/O pool down");
+                self.arrived.insert(c.command.user_data, (c.result, c.command));
+            }
+            let (result, command) = self.arrived.remove(&ticket).unwrap();
+            result?;
+            let page = match command.kind {
+                IoKind::Read(_, _, page) => page,
+                _ => unreachable!(),
+            };
+            Ok(self.reader.complete(index, page))
+        }
+
+        /// (known pages, request index, process index, total pages)
+        pub fn progress(&self) -> (usize, usize, usize, usize) {
+            self.reader.verif_progress()
+        }
+    }
+}
